@@ -22,8 +22,7 @@ TRUSTED = [
 
 ASSUMPTIONS = [
     "malloc/calloc succeed (LY_EMEM paths are not modelled)",
-    "at most 3 * 2^20 operations on one table (beyond 2^25 records ht->used * 100 wraps in uint32_t, see "
-    "C17_ht_pct_wraps_refuted)",
+    "at most 3 * 2^26 operations on one table (keeps ht->size << 1 inside uint32_t)",
     "single thread (the dictionary lock is not modelled)",
     "dictionary strings contain no NUL and each reference count stays below 2^32",
 ]
@@ -42,8 +41,8 @@ MANIFEST = {
             "lydict_dup, incl. removes of strings that are not held, the table stores exactly the finite map string -> "
             "(#acquired - #released) restricted to positive counts; after releasing every reference used = 0; a surplus "
             "lydict_remove answers LY_ENOTFOUND and changes nothing (C17_dict_refs_balance, C17_dict_counts, "
-            "C17_dict_release_all_empty, C17_dict_remove_not_held). Two defects of the code are kept in the model and stated as "
-            "..._refuted theorems (lyht_dup does not copy first_free_rec; used * 100 wraps beyond 2^25 records). Tie: T2 on the "
+            "C17_dict_release_all_empty, C17_dict_remove_not_held). lyht_dup keeps the invariant and the content (C17_ht_dup_preserves_rep) and the load percentage is exact "
+            "(C17_ht_pct_exact); both were refuted before the fixes d69e9c2 / be54a69. Tie: T2 on the "
             "public lyht_* / lydict_* API - the extracted models and the C functions run the same operation scripts and are "
             "compared on every return value AND on the complete internal state (size, used, resize, first_free_rec, every "
             "hlists[] entry, every chain with arena indices, the free list, reference counts).",
